@@ -89,6 +89,10 @@ def plan(ch, tier):
     hold = {"on": ch.flag("hold_attempt", 0.25), "secs": ch.pick("hold_secs", [1.5, 0.5, 3.0])}
     # mechanical plunger: a ball may already rest in the lane at boot (nothing queued; the player plunges it by hand)
     lane_ball = topo == "t4" and nb >= 2 and ch.flag("lane_ball_at_boot", 0.5)
+    if lane_ball and ch.flag("lane_plunge_before_game", 0.5):
+        # attract mode: somebody plunges the resting ball before any game was started
+        ops[0]["op"] = ch.pick("lane_first_op", ["plunge", "wait"])
+        ops[0]["dt"] = ch.pick("lane_first_dt", [5.0, 0.5, 12.0])
     return {"knobs": knobs, "world": wk, "topo": topo, "nballs": nb, "ops": ops, "patches": patches, "react": react,
             "hold": hold, "lane_ball": lane_ball}
 
@@ -102,6 +106,8 @@ def execute(ctx, plan, prop):
     start_sw = list(topo["trough_switches"][:plan["nballs"]])
     if plan.get("lane_ball"):
         start_sw[-1] = "s_plunger"
+        # the lane counts as a home position: the ball may stay there, nothing is queued until the player plunges
+        patches["ball_devices"] = {"bd_plunger": {"tags": "home"}}
     patches["virtual_platform_start_active_switches"] = ", ".join(start_sw)
     sim = ctx.new_sim(topo["machine"], platform="simhw", patches=patches, unit_test=False)
     sim.loop.stall_enabled = False
